@@ -106,6 +106,14 @@ class PathFlow:
         if k == "index":
             return {("index", strip(t[1]), t[2])}
         if k == "field":
+            # the element half of a pair yielded by `iter().enumerate()` (`for (i, layer) in ..`): an element of the collection
+            if t[2] == "1":
+                inner = strip(t[1])
+                while inner[0] in ("okval", "await"):
+                    inner = strip(inner[1])
+                if inner[0] == "call" and isinstance(inner[1], str) and short(inner[1]) in ("Iterator::next", "StreamExt::next") and inner[2] and \
+                        any(x[0] == "call" and isinstance(x[1], str) and short(x[1]) == "Iterator::enumerate" for x in walk(inner[2][0])):
+                    return self._elem_origin(inner[2][0], depth, stack)
             # a VfsPath stored in a struct field (e.g. AltrootFS.root)
             return {("field", strip(t[1]), t[2])}
         if k == "call":
